@@ -82,6 +82,22 @@ BREAKING = {
         sub("src/stream_rx.rs", "            self.last_remaining_rx_window\n                .saturating_sub(self.ooq.stored_bytes())", "            self.last_remaining_rx_window")),
     "send-front-skips-window-check": (["C04"], ["rxflush.send_front", "ooq.k.send_front"],
         sub("src/stream_rx.rs", "        if self.data[0].len_bytes() > window {\n            return None;\n        }", "        if self.data[0].len_bytes() > window.saturating_add(1) {\n            return None;\n        }")),
+    "flush-ok-on-dead-socket": (["C03"], ["usertx.flush"],
+        sub("src/stream_tx.rs", """        if self.user_tx.producer.lock().is_empty() {
+            return Poll::Ready(Ok(()));
+        }
+
+        if g.vsock_closed {
+            return Poll::Ready(Err(std::io::Error::other("socket died")));
+        }""", """        if self.user_tx.producer.lock().is_empty() || g.vsock_closed {
+            return Poll::Ready(Ok(()));
+        }""")),
+    "grow-slices-swapped": (["C19"], ["usertx.grow"],
+        sub("src/stream_tx.rs", "        new_rb.push_slice(first);\n        new_rb.push_slice(second);", "        new_rb.push_slice(second);\n        new_rb.push_slice(first);")),
+    "death-no-writer-close": (["C03"], ["death.writer_is_told"],
+        sub("src/stream_dispatch.rs", "        // This will close the writer.\n        self.user_tx.mark_vsock_closed();\n\n        if error.is_some()", "        if error.is_some()")),
+    "afterpk-truncates-sacked-bytes-too": (["C01"], ["afterpk.ring_loses"],
+        sub("src/stream_dispatch.rs", ".truncate_front(result.on_ack_result.acked_bytes)?;", ".truncate_front(result.on_ack_result.acked_bytes + result.on_ack_result.newly_sacked_byte_count)?;")),
 }
 
 HARMLESS = {
@@ -127,6 +143,59 @@ HARMLESS = {
         sub("src/stream_dispatch.rs", "        self.last_remote_timestamp = msg.header.timestamp_microseconds;\n        self.last_remote_window = msg.header.wnd_size;\n", "        self.last_remote_window = msg.header.wnd_size;\n        self.last_remote_timestamp = msg.header.timestamp_microseconds;\n")),
     "flush-extra-trace-and-local": (["C07"],
         sub("src/stream_rx.rs", "        self.last_remaining_rx_window = remaining_rx_window;\n        Ok(flushed_bytes)", "        let left = remaining_rx_window;\n        trace!(left, \"window after flush\");\n        self.last_remaining_rx_window = left;\n        Ok(flushed_bytes)")),
+    "usertx-reorder-write-guards": (["C19", "C03"],
+        sub("src/stream_tx.rs", """        if g.vsock_closed {
+            return Poll::Ready(Err(std::io::Error::other("socket closed")));
+        }
+
+        if g.writer_shutdown {
+            return Poll::Ready(Err(std::io::Error::other("no writing after shutdown")));
+        }
+""", """        if g.writer_shutdown {
+            return Poll::Ready(Err(std::io::Error::other("no writing after shutdown")));
+        }
+
+        if g.vsock_closed {
+            return Poll::Ready(Err(std::io::Error::other("socket closed")));
+        }
+""")),
+    "usertx-shutdown-early-return-style": (["C03"],
+        sub("src/stream_tx.rs", """        if g.vsock_closed {
+            return Poll::Ready(Ok(()));
+        }
+
+        g.writer_shutdown = true;
+        update_optional_waker(&mut g.writer_waker, cx);
+        Poll::Pending""", """        if !g.vsock_closed {
+            g.writer_shutdown = true;
+            update_optional_waker(&mut g.writer_waker, cx);
+            return Poll::Pending;
+        }
+        Poll::Ready(Ok(()))""")),
+    "usertx-grow-min-operands-swapped": (["C19"],
+        sub("src/stream_tx.rs", "let new_cap = (cap * 2).min(max_size.get());", "let doubled = cap * 2;\n        let new_cap = max_size.get().min(doubled);")),
+    "death-merge-error-branches": (["C03"],
+        sub("src/stream_dispatch.rs", """        if let Some(err) = error {
+            trace!("just_before_death: {err:#}");
+        } else {
+            trace!("just_before_death: no error");
+        }
+
+        if let Some(e) = error {
+            self.user_rx.enqueue_error(format!("{e:#}"));
+        }
+""", """        if let Some(e) = error {
+            trace!("just_before_death: {e:#}");
+            self.user_rx.enqueue_error(format!("{e:#}"));
+        } else {
+            trace!("just_before_death: no error");
+        }
+""")),
+    "afterpk-swap-timer-turn-offs": (["C06", "C01"],
+        sub("src/stream_dispatch.rs", """                self.timers.retransmit.turn_off("rfc6298 5.2");
+
+                self.timers.remote_inactivity_timer.turn_off("TX is empty");""", """                self.timers.remote_inactivity_timer.turn_off("TX is empty");
+                self.timers.retransmit.turn_off("rfc6298 5.2");""")),
 }
 
 
